@@ -206,12 +206,12 @@ func RuleY1Y2(c *Ctx) {
 		sq := callsTo(fn, "bandersnatch/fp", "", "SqrtPrecomp")
 		ok := len(sq) == 1
 		if ok {
-			for _, r := range core.Returns(fn) {
-				isNil := core.IsNilConst(r.Results[0])
-				if isNil != core.MustPass(fn, nilEdges(fn, sq[0], true), r) {
+			for _, r := range core.Exits(fn) {
+				isNil := core.IsNilConst(r.Vals[0])
+				if isNil != core.MustPassExit(fn, nilEdges(fn, sq[0], true), r) {
 					ok = false
 				}
-				if !isNil && !core.MustPass(fn, nilEdges(fn, sq[0], false), r) {
+				if !isNil && !core.MustPassExit(fn, nilEdges(fn, sq[0], false), r) {
 					ok = false
 				}
 			}
@@ -241,19 +241,19 @@ func RuleY1Y2(c *Ctx) {
 				ok = false
 				why = append(why, "the dyadic reconstruction is not applied to the root-of-unity part")
 			}
-			for _, r := range core.Returns(s) {
-				isNil := core.IsNilConst(r.Results[0])
-				if isNil && !core.MustPass(s, boolEdges(s, inv[0], false), r) {
+			for _, r := range core.Exits(s) {
+				isNil := core.IsNilConst(r.Vals[0])
+				if isNil && !core.MustPassExit(s, boolEdges(s, inv[0], false), r) {
 					ok = false
 					why = append(why, "nil is returned on a path other than the failure of invSqrtEqDyadic")
 				}
-				if !isNil && core.CanReach(s, inv[0], r) && !core.MustPass(s, boolEdges(s, inv[0], true), r) {
+				if !isNil && core.CanReachExit(s, inv[0], r) && !core.MustPassExit(s, boolEdges(s, inv[0], true), r) {
 					ok = false
 					why = append(why, "a root is returned although invSqrtEqDyadic failed")
 				}
-				if !isNil && !core.CanReach(s, inv[0], r) {
+				if !isNil && !core.CanReachExit(s, inv[0], r) {
 					// the early return: zero for zero
-					if !core.MustPass(s, boolEdges(s, zs[0], true), r) || core.PathOf(zs[0].Call.Args[0]) != "p:x" {
+					if !core.MustPassExit(s, boolEdges(s, zs[0], true), r) || core.PathOf(zs[0].Call.Args[0]) != "p:x" {
 						ok = false
 						why = append(why, "an early return that is not the zero-for-zero case")
 					}
@@ -311,14 +311,45 @@ func RuleQ1Q2(c *Ctx) {
 		c.Und("Q1", "DivideOnDomain:shape", fn.Pos(), fmt.Sprintf("unexpected shape: %d loops computing quotient entries", len(insts)))
 		return
 	}
+	hasCall := func(cl *countedLoop, calls []*ssa.Call) bool {
+		for _, x := range calls {
+			if loopOf(cls, x.Block()) == cl {
+				return true
+			}
+		}
+		return false
+	}
+	sameRange := func(a, b *countedLoop) bool {
+		return a.step == b.step && a.op == b.op && (a.init == b.init || core.SameExpr(a.init, b.init) || constEq(a.init, b.init)) && (a.bound == b.bound || core.SameExpr(a.bound, b.bound) || constEq(a.bound, b.bound))
+	}
+	// a loop that computes the q_i but leaves the self term to a second pass over the same range, run afterwards
+	partner := map[*countedLoop]*countedLoop{}
+	for _, cl := range insts {
+		if hasCall(cl, allRatio) {
+			continue
+		}
+		for _, c2 := range cls {
+			if c2 != cl && hasCall(c2, allRatio) && !hasCall(c2, allAbs) && sameRange(cl, c2) && len(cl.loop.Header.Instrs) > 0 && len(c2.loop.Header.Instrs) > 0 &&
+				core.CanReach(fn, cl.loop.Header.Instrs[0], c2.loop.Header.Instrs[0]) && !core.CanReach(fn, c2.loop.Header.Instrs[0], cl.loop.Header.Instrs[0]) {
+				partner[cl] = c2
+			}
+		}
+	}
 	inLoop := func(cl *countedLoop, calls []*ssa.Call) []*ssa.Call {
 		var out []*ssa.Call
 		for _, x := range calls {
-			if loopOf(cls, x.Block()) == cl {
+			if l := loopOf(cls, x.Block()); l == cl || (l != nil && l == partner[cl]) {
 				out = append(out, x)
 			}
 		}
 		return out
+	}
+	// the loop variable as the loop around an instruction sees it
+	lvAt := func(in ssa.Instruction) ssa.Value {
+		if l := loopOf(cls, in.Block()); l != nil {
+			return l.phi
+		}
+		return nil
 	}
 	var ranges []string
 	for k, cl := range insts {
@@ -331,7 +362,6 @@ func RuleQ1Q2(c *Ctx) {
 			c.Und("Q1", "DivideOnDomain:shape"+sfx, fn.Pos(), fmt.Sprintf("unexpected shape: %d absInt, %d getInvertedElement, %d getRatioOfWeights, %d Sub, %d Mul", len(abs), len(inv), len(ratio), len(subs), len(muls)))
 			return
 		}
-		loopVar := cl.phi
 		// the range of i, for the coverage clause
 		{
 			z, isZ := core.ConstInt(cl.init)
@@ -356,7 +386,7 @@ func RuleQ1Q2(c *Ctx) {
 		}
 		// den := i - index
 		den, isSub := abs[0].Call.Args[0].(*ssa.BinOp)
-		okDen := isSub && den.Op == token.SUB && den.X == loopVar && isIdx(den.Y)
+		okDen := isSub && den.Op == token.SUB && den.X == lvAt(abs[0]) && isIdx(den.Y)
 		// numerator: quotient[i] = f[i] - y, y = f[index]
 		var num *ssa.Call
 		for _, s := range subs {
@@ -369,7 +399,7 @@ func RuleQ1Q2(c *Ctx) {
 			a, _ := num.Call.Args[1].(*ssa.IndexAddr)
 			yCell, _ := num.Call.Args[2].(*ssa.Alloc)
 			d, _ := num.Call.Args[0].(*ssa.IndexAddr)
-			if a != nil && yCell != nil && d != nil && a.Index == loopVar && d.Index == loopVar {
+			if a != nil && yCell != nil && d != nil && a.Index == lvAt(num) && d.Index == lvAt(num) {
 				src := core.LocalCopySource(yCell)
 				if ia, isIA := src.(*ssa.IndexAddr); isIA && core.PathOf(ia.X) == "p:f" && isIdx(ia.Index) {
 					okNum = true
@@ -386,7 +416,7 @@ func RuleQ1Q2(c *Ctx) {
 		// quotient[i] *= denInv
 		okScale := false
 		for _, m := range muls {
-			if d, isD := m.Call.Args[0].(*ssa.IndexAddr); isD && d.Index == loopVar {
+			if d, isD := m.Call.Args[0].(*ssa.IndexAddr); isD && d.Index == lvAt(m) {
 				if cell, isCell := m.Call.Args[2].(*ssa.Alloc); isCell {
 					for _, st := range storesInto(cell) {
 						if st.Val == ssa.Value(inv[0]) {
@@ -457,12 +487,12 @@ func RuleQ1Q2(c *Ctx) {
 							qi = ia
 						}
 					}
-					if wr == nil || qi == nil || qi.Index != loopVar || core.PathOf(qi.X) != core.PathOf(d.X) {
+					if wr == nil || qi == nil || qi.Index != lvAt(m) || core.PathOf(qi.X) != core.PathOf(d.X) {
 						why = "the subtracted product is not weightRatio * quotient[i]"
 						continue
 					}
 					for _, st := range storesInto(wr) {
-						if st.Val == ssa.Value(ratio[0]) && isIdx(ratio[0].Call.Args[1]) && ratio[0].Call.Args[2] == loopVar {
+						if st.Val == ssa.Value(ratio[0]) && isIdx(ratio[0].Call.Args[1]) && ratio[0].Call.Args[2] == lvAt(ratio[0]) {
 							okSelf = true
 						}
 					}
@@ -476,7 +506,7 @@ func RuleQ1Q2(c *Ctx) {
 			// only inside i != index
 			guard := core.NewCuts()
 			for _, cd := range core.Conds(fn) {
-				if cd.X == loopVar && isIdx(cd.Y) || cd.Y == loopVar && isIdx(cd.X) {
+				if lv := lvAt(self); lv != nil && (cd.X == lv && isIdx(cd.Y) || cd.Y == lv && isIdx(cd.X)) {
 					if e := cd.EdgeWhere(token.NEQ); e >= 0 {
 						guard.AddEdge(cd.Block, e)
 					}
@@ -644,6 +674,12 @@ func RuleS1(c *Ctx) {
 						}
 					}
 				}
+			}
+		}
+		if !okCeil {
+			// the same ceiling written out: q = n / w, one more when n % w != 0
+			if nn, okPhi := ceilQuoPhi(fn, batch, w); okPhi {
+				n, okCeil = nn, true
 			}
 		}
 		if !okCeil {
@@ -1250,6 +1286,55 @@ func RuleT2(c *Ctx) {
 			}
 		}
 	}
+	// the same extraction without a big.Int: limb 0 of x.ToRegular() used outside the field package
+	for _, top := range c.P.TopFuncs() {
+		if inHelperPkg(top) || top.Pkg == nil || strings.HasSuffix(top.Pkg.Pkg.Path(), "/fr") || strings.HasSuffix(top.Pkg.Pkg.Path(), "/fp") {
+			continue
+		}
+		for _, fn := range core.Family(top) {
+			fn := fn
+			core.AllInstrs(fn, func(in ssa.Instruction) {
+				ld, ok := in.(*ssa.UnOp)
+				if !ok || ld.Op != token.MUL {
+					return
+				}
+				limb, isLimb := ld.X.(*ssa.IndexAddr)
+				if !isLimb {
+					return
+				}
+				cell, isCell := limb.X.(*ssa.Alloc)
+				if !isCell {
+					return
+				}
+				sts := storesInto(cell)
+				if len(sts) != 1 {
+					return
+				}
+				conv, isCall := sts[0].Val.(*ssa.Call)
+				if !isCall || !core.IsMethod(core.Callee(conv.Common()), "bandersnatch/fr", "Element", "ToRegular") {
+					return
+				}
+				n++
+				c.Saw(core.FnName(fn))
+				key := fmt.Sprintf("%s:limb@%s", core.FnName(fn), c.relInFn(fn, ld.Pos()))
+				guarded := false
+				for _, cj := range core.CallsIn(fn) {
+					g, ok := cj.(*ssa.Call)
+					if !ok || !core.IsMethod(core.Callee(g.Common()), "bandersnatch/fr", "Element", "Cmp") {
+						continue
+					}
+					if g.Block() == ld.Block() && core.Precedes(fn, g, ld) || g.Block().Dominates(ld.Block()) {
+						guarded = true
+					}
+				}
+				if guarded {
+					c.OK("T2", key, ld.Pos(), "one limb of a regular form, dominated by fr.Element.Cmp on the element")
+				} else {
+					c.Bad("T2", key, ld.Pos(), core.FnName(fn)+" takes one limb of a field element's regular form without a full-width test before it: every value with the same limb is treated alike")
+				}
+			})
+		}
+	}
 	c.FloorN("T2", 1, n, "low-64-bit extractions")
 }
 
@@ -1290,7 +1375,14 @@ func RuleQ3(c *Ctx) {
 					}
 				}
 			}
-			if ia == nil || ia.X != tbl || !core.CanReach(fn, i, call) || core.CanReach(fn, call, i) {
+			// the table itself, or the array a whole-array slice expression was taken of
+			wholeOf := func(v ssa.Value) ssa.Value {
+				if sl, isSl := v.(*ssa.Slice); isSl && sl.Low == nil && sl.High == nil {
+					return sl.X
+				}
+				return v
+			}
+			if ia == nil || (ia.X != tbl && wholeOf(ia.X) != wholeOf(tbl)) || !core.CanReach(fn, i, call) || core.CanReach(fn, call, i) {
 				return
 			}
 			cl := loopOf(cls, i.Block())
@@ -1319,4 +1411,110 @@ func RuleQ3(c *Ctx) {
 		c.Check(covered && len(why) == 0, "Q3", key, call.Pos(), "a table of "+fmt.Sprint(ln)+" entries is inverted without having been completely filled: "+strings.Join(uniqStrings(why), "; "), fmt.Sprintf("all %d entries written on every iteration before the inversion", ln))
 	}
 	c.FloorN("Q3", 1, n, "fixed-size tables passed to BatchInvert")
+}
+
+// ---------------------------------------------------------------------------
+// Q4 — grouped polynomials are accumulated, never overwritten
+
+// RuleQ4: in groupPolynomialsByEvaluationPoint every field operation whose destination is an element of a coefficient
+// vector (x[j]) is an accumulation into that same element: x[j].Add(&x[j], term) (either operand order). Writing a
+// product straight into the slot keeps only the last polynomial of an evaluation point instead of the sum.
+func RuleQ4(c *Ctx) {
+	c.Rule("Q4", "grouping accumulates: in groupPolynomialsByEvaluationPoint (the workers and the merge) every fr.Element operation whose destination is an element x[j] of a coefficient vector is x[j].Add(&x[j], term): the polynomials that share an evaluation point are summed, none is overwritten by the next")
+	top := c.P.Fn("", "", "groupPolynomialsByEvaluationPoint")
+	if top == nil {
+		c.Unresolved("Q4", "groupPolynomialsByEvaluationPoint")
+		return
+	}
+	n := 0
+	sameSlot := func(a, b ssa.Value) bool {
+		if a == b {
+			return true
+		}
+		ia, ok1 := a.(*ssa.IndexAddr)
+		ib, ok2 := b.(*ssa.IndexAddr)
+		if !ok1 || !ok2 || core.StripConv(ia.Index) != core.StripConv(ib.Index) {
+			return false
+		}
+		if ia.X == ib.X || core.SameExpr(ia.X, ib.X) {
+			return true
+		}
+		// two loads of the same array element (groupedFs[z] read twice)
+		la, okA := ia.X.(*ssa.UnOp)
+		lb, okB := ib.X.(*ssa.UnOp)
+		if okA && okB && la.Op == token.MUL && lb.Op == token.MUL {
+			xa, okXA := la.X.(*ssa.IndexAddr)
+			xb, okXB := lb.X.(*ssa.IndexAddr)
+			if okXA && okXB && xa.X == xb.X && core.StripConv(xa.Index) == core.StripConv(xb.Index) {
+				return true
+			}
+		}
+		return false
+	}
+	for _, fn := range core.Family(top) {
+		c.Saw(core.FnName(fn))
+		for _, ci := range core.CallsIn(fn) {
+			call, ok := ci.(*ssa.Call)
+			if !ok {
+				continue
+			}
+			f := core.Callee(call.Common())
+			if f == nil || f.Signature.Recv() == nil || len(call.Call.Args) == 0 || !core.IsMethod(f, "bandersnatch/fr", "Element", f.Name()) {
+				continue
+			}
+			dst, isSlot := call.Call.Args[0].(*ssa.IndexAddr)
+			if !isSlot || gnarkObservers[f.Name()] {
+				continue
+			}
+			n++
+			key := fmt.Sprintf("%s:%s@%s", core.FnName(fn), f.Name(), c.relInFn(fn, call.Pos()))
+			ok2 := f.Name() == "Add" && len(call.Call.Args) == 3 && (sameSlot(call.Call.Args[1], dst) || sameSlot(call.Call.Args[2], dst))
+			c.Check(ok2, "Q4", key, call.Pos(), fmt.Sprintf("%s writes a coefficient slot with %s that is not an accumulation into that slot: the polynomials grouped under one evaluation point are not summed (the last one wins)", core.FnName(fn), f.Name()), "x[j].Add(&x[j], term)")
+		}
+	}
+	c.FloorN("Q4", 2, n, "slot updates in the grouping")
+}
+
+// ceilQuoPhi: v = phi(q, q+1) with q = n / w, the incremented value arriving exactly from the non-zero arm of a test
+// of n % w against 0. Returns n.
+func ceilQuoPhi(fn *ssa.Function, v, w ssa.Value) (ssa.Value, bool) {
+	phi, ok := v.(*ssa.Phi)
+	if !ok || len(phi.Edges) != 2 {
+		return nil, false
+	}
+	for i, e := range phi.Edges {
+		q, isQ := phi.Edges[1-i].(*ssa.BinOp)
+		inc, isInc := e.(*ssa.BinOp)
+		if !isQ || !isInc || q.Op != token.QUO || q.Y != w || inc.Op != token.ADD {
+			continue
+		}
+		if k, isK := core.ConstInt(inc.Y); !isK || k != 1 || inc.X != ssa.Value(q) {
+			continue
+		}
+		incPred, qPred := phi.Block().Preds[i], phi.Block().Preds[1-i]
+		for _, cd := range core.Conds(fn) {
+			r, isR := core.StripConv(cd.X).(*ssa.BinOp)
+			if !isR || r.Op != token.REM || !core.SameExpr(r.X, q.X) || r.Y != w {
+				continue
+			}
+			if z, isZ := core.ConstInt(cd.Y); !isZ || z != 0 {
+				continue
+			}
+			ne := cd.EdgeWhere(token.NEQ)
+			if ne < 0 {
+				continue
+			}
+			// non-zero arm leads (only) to the incrementing predecessor; the zero arm is the other edge of the phi
+			if cd.Block.Succs[ne] == incPred && len(incPred.Preds) == 1 && qPred == cd.Block {
+				return q.X, true
+			}
+		}
+	}
+	return nil, false
+}
+
+func constEq(a, b ssa.Value) bool {
+	x, okX := core.ConstInt(a)
+	y, okY := core.ConstInt(b)
+	return okX && okY && x == y
 }
